@@ -393,6 +393,7 @@ func (w *World) lowerFunc(pkg *Pkg, key string, fd *ast.FuncDecl, fc *FuncContra
 			}
 		}
 		// memory frame
+		e.aliasObligations(exitActuals, w.pos(fd.Pos()))
 		if e.frOn {
 			e.assertFrame("exit", "only what the modifies clause allows (or freshly allocated memory) is written", fmt.Sprintf("%s:%d", fc.File, fc.Line))
 		}
@@ -555,6 +556,44 @@ func (e *Env) frameInit(fc *FuncContract, key string, sig *types.Signature, actu
 	e.frOn = true
 	e.declare("$fok", SBool)
 	e.assign("$fok", SBool, True)
+}
+
+// aliasObligations: a string made by reinterpreting a byte slice (unsafe cast) shares the slice's array. It
+// stays immutable only if nobody can write that array any more, so the function must have given the array up:
+// at every exit no byte-slice field of its parameters (pointer targets and by-value copies alike) may still
+// refer to it. (TakeRedactableString sets b.buf = nil; an accessor that casts and keeps the slice fails here.)
+func (e *Env) aliasObligations(actuals []Value, pos string) {
+	if len(e.unsafeCasts) == 0 {
+		return
+	}
+	k := 0
+	for _, r := range e.unsafeCasts {
+		var conj []*Term
+		for _, a := range actuals {
+			if a.K != VPtr && a.K != VStruct {
+				continue
+			}
+			t := a.Typ
+			if a.K == VPtr {
+				t = derefType(t)
+			}
+			walkLeaves(t, nil, func(steps []subStep, lf leaf) {
+				if lf.K != VSlice || lf.ElemU {
+					return
+				}
+				if _, isArr := lf.Typ.Underlying().(*types.Array); isArr {
+					return
+				}
+				v := e.loadField(subID(a.T, steps), lf)
+				conj = append(conj, Or(Eq(r, IntLit(0)), Ne(v.Ref, r)))
+			})
+		}
+		if len(conj) > 0 {
+			k++
+			tags := append(append([]string{}, homeProps(e.key)...), "C13", "C12")
+			e.assert(And(conj...), "alias.cast", fmt.Sprint(k), tags, "a byte array reinterpreted as a string (unsafe cast) is no longer referenced by the object when the function returns", pos)
+		}
+	}
 }
 
 func (e *Env) preObj(o *Term) *Term {
